@@ -567,6 +567,12 @@ theorem advance_spec (c : Cfg) (ex : Expiry) (s : State) (t x : Nat) (hw : WF c 
           refine ⟨wf_stepD c _ _ hw1, ?_, trivial⟩
           rw [hs2, hc1]
           simp [setPC, outstandingAfter, bumpN]
+        | delayed =>
+          have hc1 : c.countFails = true := by rw [hcf]; rfl
+          simp only [show (Expiry.delayed == Expiry.immediate) = false from rfl, Bool.false_eq_true, if_false]
+          refine ⟨wf_stepD c _ _ hw1, ?_, trivial⟩
+          rw [hs2, hc1]
+          simp [setPC, outstandingAfter, bumpN]
         | immediate =>
           have hc1 : c.countFails = true := by rw [hcf]; rfl
           simp only [beq_self_eq_true, if_true]
@@ -658,28 +664,66 @@ theorem checkSnap_none (c : Cfg) (s s' : State) (l : Label) (hw : WF c s) (hw' :
   | lost _ => rfl
   | fin _ _ => rfl
   | noop => rfl
+  | exp _ => rfl
+
+theorem stepD_timer_timers (c : Cfg) (s : State) (h : Nat) :
+    (stepD c s (.timer h)).timers = s.timers.modify h (· - 1) := by
+  simp only [stepD, step]
+  by_cases hp : getN s.timers h > 0
+  · simp [hp, dropN]
+  · simp only [hp, if_false, Option.getD_none]
+    apply List.ext_getElem?
+    intro i
+    rw [List.getElem?_modify]
+    cases hi : s.timers[i]? with
+    | none => rfl
+    | some a =>
+      by_cases hh : h = i
+      · subst hh
+        have : a = 0 := by
+          unfold getN at hp
+          rw [List.getD_eq_getElem?_getD, hi] at hp
+          simp at hp; exact hp
+        subst this; simp
+      · simp [hh]
 
 /-- The judged predicate holds on every replay of the model from a well-formed state. -/
 theorem verdictGo_replay (c : Cfg) (ex : Expiry) (hcf : c.countFails = (ex != .off)) :
-    ∀ (es : List (Nat × Nat)) (s : State), WF c s →
-      verdictGo c ex s.timers (inflightList c s) (replay c ex s es) = "ok" := by
+    ∀ (es : List (Nat × Nat)) (s : State) (q : List Nat), WF c s →
+      verdictGo c ex s.timers (inflightList c s) (replay c ex s q es) = "ok" := by
   intro es
   induction es with
   | nil =>
-    intro s hw
+    intro s q hw
     simp only [replay, verdictGo]
     have : outstandingAfter ex s.timers (snap c s .final).label = s.timers := rfl
     rw [this, checkSnap_none c s s .final hw hw trivial (by intro h hh; cases hh) (by intro hh; cases hh)]
   | cons e es ih =>
-    intro s hw
+    intro s q hw
     obtain ⟨t, x⟩ := e
-    obtain ⟨hw', htim, hlab⟩ := advance_spec c ex s t x hw hcf
-    simp only [replay, verdictGo]
-    have hout : outstandingAfter ex s.timers (snap c (advance c ex s t x).1 (advance c ex s t x).2).label =
-        (advance c ex s t x).1.timers := by rw [htim]; rfl
-    rw [hout]
-    rw [checkSnap_none c s (advance c ex s t x).1 (advance c ex s t x).2 hw hw' hlab
-      (by intro h hh; rw [htim, hh]; rfl) (by intro hh; rw [htim, hh]; rfl)]
-    exact ih _ hw'
+    by_cases ht : t = waitMark
+    · simp only [replay, ht, if_true]
+      cases q with
+      | nil =>
+        simp only [verdictGo]
+        have : outstandingAfter ex s.timers (snap c s .noop).label = s.timers := rfl
+        rw [this, checkSnap_none c s s .noop hw hw trivial (by intro h hh; cases hh) (by intro hh; cases hh)]
+        exact ih s [] hw
+      | cons h q' =>
+        simp only [verdictGo]
+        have hw' := wf_stepD c s (.timer h) hw
+        have hout : outstandingAfter ex s.timers (snap c (stepD c s (.timer h)) (.exp h)).label =
+            (stepD c s (.timer h)).timers := by rw [stepD_timer_timers]; rfl
+        rw [hout, checkSnap_none c s _ (.exp h) hw hw' trivial (by intro h hh; cases hh) (by intro hh; cases hh)]
+        exact ih _ q' hw'
+    · simp only [replay, ht, if_false]
+      obtain ⟨hw', htim, hlab⟩ := advance_spec c ex s t x hw hcf
+      simp only [verdictGo]
+      have hout : outstandingAfter ex s.timers (snap c (advance c ex s t x).1 (advance c ex s t x).2).label =
+          (advance c ex s t x).1.timers := by rw [htim]; rfl
+      rw [hout]
+      rw [checkSnap_none c s (advance c ex s t x).1 (advance c ex s t x).2 hw hw' hlab
+        (by intro h hh; rw [htim, hh]; rfl) (by intro hh; rw [htim, hh]; rfl)]
+      exact ih _ _ hw'
 
 end Casket.Accounting
